@@ -249,6 +249,11 @@ def closed_tuple_schema(rng):
     m = rng.choice([None, 0, k - 1, k, k])
     if m is not None:
         tup["minItems"] = m
+    if rng.random() < 0.4:
+        # the schema's own upper bound, below / at / above the prefix length (kept satisfiable)
+        mx = rng.choice([max(1, k - 1), k, k + 1])
+        if m is None or m <= mx:
+            tup["maxItems"] = mx
     wrap = rng.choice([lambda: {"type": "array", "items": tup}, lambda: {"anyOf": [tup, {"type": "null"}]}, lambda: tup,
                        lambda: {"type": "array", "items": {"anyOf": [tup, {"type": "string"}]}},
                        lambda: {"type": "array", "items": {"anyOf": [tup, {"type": "integer"}]}}])()
